@@ -179,6 +179,8 @@ def build_objects(inst, variant=None):
   r = random.Random(inst['shuffle_seed'] + variant.get('shuffle', 0))
   r.shuffle(rows)
   df = pd.DataFrame(rows)
+  if 'keep' in variant:
+    variant['keep']['df'] = df
   if variant.get('ids_as_str'):
     df['geo'] = df['geo'].astype(str)
   elig_obj = None
